@@ -134,6 +134,28 @@ pub fn build_inputs(_seed: u64, open: &[String]) -> impl Iterator<Item = Value> 
         bad(vec!["type Query { n: Int }", "type P implements Nope { x: Int }"]),                                                     // unknown interface
         bad(vec!["type Query { n: Int }", "type P implements Q2 { x: Int }", "type Q2 { x: Int }"]),                                 // implements a non-interface
         bad(vec!["type Query { n: Node }", "interface Node { f(a: Int!): Int }", "type P implements Node { f: Int }"]),              // missing required argument
+        // every mentioned type exists (fields, arguments, interface fields, input fields, union members, implemented interfaces)
+        bad(vec!["type Query { a(x: Missing): Int }"]),
+        bad(vec!["type Query { n: Node }", "interface Node { f: Missing }", "type P implements Node { f: Int }"]),
+        bad(vec!["type Query { n: Node }", "interface Node { f(a: Missing): Int }", "type P implements Node { f(a: Int): Int }"]),
+        bad(vec!["type Query { a(x: In): Int }", "input In { f: Missing }"]),
+        bad(vec!["type Query { u: U }", "union U = P | Missing", "type P { x: Int }"]),
+        // type kinds in positions: fields need output types, arguments and input fields need input types -- on objects AND interfaces
+        bad(vec!["type Query { n: Node }", "interface Node { f: In }", "type P implements Node { f: In }", "input In { x: Int }"]),
+        bad(vec!["type Query { n: Node }", "interface Node { f(a: P): Int }", "type P implements Node { f(a: P): Int }"]),
+        bad(vec!["type Query { a(x: In): Int }", "input In { f: P }", "type P { x: Int }"]),
+        bad(vec!["type Query { a(x: In): Int }", "input In { f: U }", "union U = P", "type P { x: Int }"]),
+        bad(vec!["type Query { a(x: [[Out!]!]): Int }", "type Out { x: Int }"]),
+        bad(vec!["type Query { a: [In!]! }", "input In { x: Int }"]),
+        ok(vec!["type Query { a(x: [[E!]!], y: S): [[S]] }", "enum E { X }", "scalar S"]),
+        // reserved names
+        bad(vec!["type Query { __a: Int }"]),
+        bad(vec!["type Query { a(__x: Int): Int }"]),
+        bad(vec!["type Query { n: Node }", "interface Node { __f: Int }", "type P implements Node { __f: Int }"]),
+        bad(vec!["type Query { a(x: In): Int }", "input In { __f: Int }"]),
+        // an object may implement several interfaces, interfaces may implement interfaces
+        ok(vec!["type Query { n: Named }", "interface Node { id: ID! }", "interface Named implements Node { id: ID!; name: String }", "type P implements Node & Named { id: ID!; name: String }"]),
+        bad(vec!["type Query { n: Named }", "interface Node { id: ID! }", "interface Named implements Node { name: String }", "type P implements Node & Named { id: ID!; name: String }"]),
         ok(vec!["type Query { n: Node }", "interface Node { l: [[Int]] }", "type P implements Node { l: [[Int!]!]! }"]),
         bad(vec!["type Query { n: Node }", "interface Node { l: [Int!] }", "type P implements Node { l: [Int] }"]),
         bad(vec!["type Query { n: Node }", "interface Node { l: [Int] }", "type P implements Node { l: Int }"]),
